@@ -80,10 +80,12 @@ def run_tasks(tasks, jobs=None):
         for ix in range(len(tasks)):
             out.extend(_run_task(ix))
         return out
+    import concurrent.futures
     ctx = multiprocessing.get_context('fork')
     order = sorted(range(len(tasks)), key=lambda ix: -tasks[ix].weight)
-    with ctx.Pool(min(jobs, len(tasks))) as pool:
-        res = pool.map(_run_task, order, chunksize=1)
+    # ProcessPoolExecutor workers are not daemonic, so a task may use a pool of its own
+    with concurrent.futures.ProcessPoolExecutor(max_workers=min(jobs, len(tasks)), mp_context=ctx) as pool:
+        res = list(pool.map(_run_task, order, chunksize=1))
     out = []
     for r in res:
         out.extend(r)
